@@ -30,13 +30,23 @@ macro_rules! sel_ok {
                 let a = matches!(SelectEntity::from(e), SelectEntity::$A(x) if x == e);
                 let b = matches!(SelectEntity::from(&e), SelectEntity::$A(x) if x == e);
                 let c = matches!(SelectArchetype::from(e), SelectArchetype::$A) && SelectArchetype::from(e).archetype_id() == <$A as Archetype>::ARCHETYPE_ID;
-                a && b && c
+                // Copy and Clone of the Select enums keep variant and handle
+                let s = SelectEntity::from(e);
+                let (s2, s3) = (s, s.clone());
+                let sa = SelectArchetype::from(e);
+                let (sa2, sa3) = (sa, sa.clone());
+                let d = matches!(s2, SelectEntity::$A(x) if x == e) && matches!(s3, SelectEntity::$A(x) if x == e)
+                    && matches!(sa2, SelectArchetype::$A) && matches!(sa3, SelectArchetype::$A);
+                a && b && c && d
             }
             fn select_direct_ok(d: EntityDirect<$A>) -> bool {
                 let a = matches!(SelectEntityDirect::from(d), SelectEntityDirect::$A(x) if x == d);
                 let b = matches!(SelectEntityDirect::from(&d), SelectEntityDirect::$A(x) if x == d);
                 let c = matches!(SelectArchetype::from(d), SelectArchetype::$A) && SelectArchetype::from(d).archetype_id() == <$A as Archetype>::ARCHETYPE_ID;
-                a && b && c
+                let s = SelectEntityDirect::from(d);
+                let (s2, s3) = (s, s.clone());
+                let e = matches!(s2, SelectEntityDirect::$A(x) if x == d) && matches!(s3, SelectEntityDirect::$A(x) if x == d);
+                a && b && c && e
             }
         }
     };
@@ -74,7 +84,20 @@ where
         let back2 = e.into_any();
         let r: &EntityAny = (&e).into();
         rt = back == any && back2 == any && *r == any && back.raw() == any.raw() && hash_of(&e) == hash_of(&any);
-        aid = e.archetype_id() == A::ARCHETYPE_ID && Entity::<A>::from_any(any) == e && A::select_ok(e);
+        // the identity conversion of the dynamic handle, the &mut view, Clone, and the formatting
+        // impls (equal handles format equally; nothing panics)
+        let mut e2 = e;
+        let rm: &mut EntityAny = (&mut e2).into();
+        let via_mut = *rm;
+        #[allow(clippy::clone_on_copy)]
+        let cl = e.clone();
+        rt = rt && any.into_any() == any && via_mut == any && cl == e && hash_of(&cl) == hash_of(&e)
+            && format!("{:?}", e) == format!("{:?}", cl) && format!("{}", e) == format!("{}", cl)
+            && format!("{:?}", any) == format!("{:?}", back) && format!("{}", any) == format!("{}", back)
+            && !format!("{:?}", e).is_empty() && !format!("{}", any).is_empty();
+        // with the matching archetype the unchecked conversion is the checked one (debug and release)
+        aid = e.archetype_id() == A::ARCHETYPE_ID && Entity::<A>::from_any(any) == e && A::select_ok(e)
+            && Entity::<A>::from_any_unchecked(any) == e;
     }
     (ok, panics, rt, aid)
 }
@@ -164,8 +187,17 @@ pub fn run(input: &str, out: &mut dyn Write) -> u64 {
                           guard(|| EntityDirect::<Ar>::from_any(da)).is_err(), guard(|| EntityDirect::<Aw>::from_any(da)).is_err()];
             let back = EntityDirect::<$A>::try_from(da).unwrap();
             let r: &EntityDirectAny = (&d).into();
+            let mut dm = d;
+            let rm: &mut EntityDirectAny = (&mut dm).into();
+            let via_mut = *rm;
+            #[allow(clippy::clone_on_copy)]
+            let dcl = d.clone();
             let rt = back == d && back.into_any() == da && *r == da && hash_of(&d) == hash_of(&da) && d.into_any() == da
-                && <$A as SelOk>::select_direct_ok(d);
+                && <$A as SelOk>::select_direct_ok(d)
+                && da.into_any() == da && via_mut == da && dcl == d
+                && EntityDirect::<$A>::from_any_unchecked(da) == d && EntityDirect::<$A>::from_any(da) == d
+                && format!("{:?}", d) == format!("{:?}", dcl) && format!("{}", d) == format!("{}", dcl)
+                && format!("{:?}", da) == format!("{:?}", via_mut) && format!("{}", da) == format!("{}", via_mut);
             let sel = match SelectEntityDirect::try_from(da) { Ok(s) => { let id = match s { SelectEntityDirect::Ap(_) => 0, SelectEntityDirect::Aq(_) => 1, SelectEntityDirect::Ar(_) => 2, SelectEntityDirect::Aw(_) => 3 }; id as i64 } Err(_) => -1 };
             let d2 = w.to_direct(e).unwrap();
             let eq = d2 == d && hash_of(&d2) == hash_of(&d);
@@ -203,6 +235,17 @@ pub fn run(input: &str, out: &mut dyn Write) -> u64 {
         derr_is_type!(EntityDirect::<Ar>::try_from(da));
         if SelectEntityDirect::try_from(da).is_err() { derr_ok = false; }
     }
-    writeln!(out, "{}", J::O(vec![("direct", J::A(dres)), ("direct_errors_ok", J::B(derr_ok))]).to_line()).unwrap();
+    // the step enums: Default, From<()>, From<EcsStep>, is_destroy (what the loop macros' closures return)
+    let step_ok = matches!(EcsStep::default(), EcsStep::Continue) && matches!(EcsStepDestroy::default(), EcsStepDestroy::Continue)
+        && matches!(EcsStep::from(()), EcsStep::Continue) && matches!(EcsStepDestroy::from(()), EcsStepDestroy::Continue)
+        && matches!(EcsStepDestroy::from(EcsStep::Continue), EcsStepDestroy::Continue)
+        && matches!(EcsStepDestroy::from(EcsStep::Break), EcsStepDestroy::Break)
+        && !EcsStepDestroy::Continue.is_destroy() && !EcsStepDestroy::Break.is_destroy()
+        && EcsStepDestroy::ContinueDestroy.is_destroy() && EcsStepDestroy::BreakDestroy.is_destroy();
+    // error values: Clone / PartialEq / Display / Debug / std::error::Error
+    let errs = [EcsError::InvalidEntityType, EcsError::InvalidRawEntity];
+    let err_ok = errs.iter().all(|e| { let c = e.clone(); let b: &dyn std::error::Error = e; c == *e && !format!("{}", e).is_empty() && !format!("{:?}", b).is_empty() })
+        && errs[0] != errs[1] && format!("{}", errs[0]) != format!("{}", errs[1]);
+    writeln!(out, "{}", J::O(vec![("direct", J::A(dres)), ("direct_errors_ok", J::B(derr_ok)), ("step_ok", J::B(step_ok)), ("err_values_ok", J::B(err_ok))]).to_line()).unwrap();
     n
 }
